@@ -10,7 +10,7 @@ declare -A REL=(
  [C13-a]="C13" [C14-a]="C14" [C15-a]="C15" [C16-a]="C04 C11" [C17-a]="C17 C06" [C18-a]="C18" [C19-a]="C19 C04"
  [C20-a]="C20"
  [C04-b]="C04 C05" [C06-b]="C06 C13" [C08-b]="C08 C04" [C11-b]="C11 C04" [C12-b]="C07 C12" [C14-b]="C14"
- [C18-b]="C04 C08 C12 C18" [C20-b]="C20" [C07-c]="C07" [C05-c]="C15 C05"
+ [C18-b]="C04 C08 C12 C18" [C20-b]="C20" [C07-c]="C07" [C13-b]="C13 C06" [C19-b]="C19 C04" [C15-b]="C15 C05" [C05-c]="C15 C05"
 )
 seeds="$@"
 [ -z "$seeds" ] && seeds=$(ls /verif/seeded | sort)
